@@ -75,7 +75,17 @@ def oracle_case(rng):
     return None
 
 
+# minimized past failures run first: the cases on which the unrepaired Lanczos iteration (F11: more iterations than the
+# dimension of the local problem) made single-site DMRG report increasing / inconsistent energies
+CORPUS = [(0, 3548), (0, 8656), (0, 17717), (0, 22456), (0, 33969), (0, 37641)]
+
+
 def search(tier, seed, hints, budget_s):
+    for s0, it0 in CORPUS:
+        r = oracle_case(np.random.default_rng([s0, 1010, it0]))
+        if r is not None:
+            return {'key': f'c10:{s0}:{it0}', 'what': r,
+                    'replay': {'call': 'harness.props.c10.oracle_case(np.random.default_rng([seed, 1010, it]))', 'seed': s0, 'it': it0, 'observed': r}}
     t0 = time.time(); it = 0
     while time.time() - t0 < budget_s:
         r = oracle_case(np.random.default_rng([seed, 1010, it]))
